@@ -9,6 +9,35 @@ namespace ofr {
 
 template<class S> __attribute__((always_inline)) inline bool is_integral_or_special(S a) { return !(std::trunc(a) != a) || a != a; }  // NaN, inf, zero and integral values
 
+// round-half-away reference on the bit pattern, independent of the rounding mode. std::round cannot serve in the directed modes: Clang expands it
+// inline to trunc(x + copysign(0.5 - ulp, x)), which is only right under FE_TONEAREST, and it folds floating-point selects into additions of -0.0
+// (both were seen as false alarms). check_round_reference() binds this function to glibc's round in every mode.
+template<class S> __attribute__((always_inline)) inline S ref_round(S x) {
+    const int MB = sizeof(S) == 4 ? 23 : 52, EB = sizeof(S) == 4 ? 8 : 11, bias = (1 << (EB - 1)) - 1;
+    const std::uint64_t signbit = std::uint64_t(1) << (MB + EB);
+    const std::uint64_t u = bits_of(x), sign = u & signbit;
+    std::uint64_t mag = u & (signbit - 1);
+    const int e = int(mag >> MB) - bias;
+    if (e >= MB) return x;                                               // integral already, infinity or NaN
+    if (e < -1) return from_bits<S>(sign);                               // |x| < 0.5
+    if (e == -1) return from_bits<S>(sign | (std::uint64_t(bias) << MB));  // 0.5 <= |x| < 1
+    mag += (std::uint64_t(1) << (MB - 1)) >> e;
+    mag &= ~(((std::uint64_t(1) << MB) - 1) >> e);
+    return from_bits<S>(sign | mag);
+}
+inline float libm_round(float x) { static float (*volatile f)(float) = &::roundf; return f(x); }
+inline double libm_round(double x) { static double (*volatile f)(double) = &::round; return f(x); }
+template<class S> inline void check_round_reference(const std::vector<S>& members) {
+    for (std::size_t i = 0; i < members.size(); ++i) {
+        S a = ref_round(members[i]), b = libm_round(members[i]);
+        if (!same_bits_nan<S>(bits_of(a), bits_of(b))) {
+            std::fprintf(stderr, "harness self-check failed: ref_round(%a) = %a but the C library's round gives %a (rounding mode %d)\n",
+                         double(members[i]), double(a), double(b), std::fegetround());
+            std::abort();
+        }
+    }
+}
+
 // flag 1: the input is finite, non-zero and not integral -> a zero result may carry either sign ("the same number")
 #define VX_RND_OP(NAME, EXPR, MODEL)                                                            \
     struct NAME : OpBase {                                                                      \
@@ -31,7 +60,7 @@ template<class S> __attribute__((always_inline)) inline bool is_integral_or_spec
 VX_RND_OP(ceil, avel::ceil(un(a)), std::ceil(x))
 VX_RND_OP(floor, avel::floor(un(a)), std::floor(x))
 VX_RND_OP(trunc, avel::trunc(un(a)), std::trunc(x))
-VX_RND_OP(round, avel::round(un(a)), std::round(x))
+VX_RND_OP(round, avel::round(un(a)), ref_round(x))
 VX_RND_OP(nearbyint, avel::nearbyint(un(a)), std::nearbyint(x))
 VX_RND_OP(rint, avel::rint(un(a)), std::rint(x))
 
